@@ -17,6 +17,9 @@ pub struct Observed {
     /// the messages of the compile_error! invocations in the output
     pub errors: Vec<String>,
     pub panicked: Option<String>,
+    /// set when the same definition written with an explicit default (`utf8 = true`) is treated
+    /// differently from the one that leaves the item out
+    pub explicit_default_differs: Option<String>,
 }
 
 #[derive(Debug, Clone, PartialEq, Eq)]
